@@ -326,8 +326,12 @@ def sampler_replay_guard(repo: Repo, rep, P: str):
             # signature predicate
             if isinstance(c, ast.Compare) and "INS_SIGN" in txt:
                 sig_slot = next((s for s in ws if s.comment and s.comment[1] == "sign"), None)
+                if sig_slot is None:
+                    sig_slot = next((s for s in ws if s.expr == "self.INS_SIGN"), None)       # the slot that carries the constant, however it is labelled
                 same = sig_slot is not None and sig_slot.expr == "self.INS_SIGN" and isinstance(c.ops[0], ast.NotEq)
-                if same:
+                if sig_slot is None:
+                    rep.inconclusive(f"{P}.R2", rcon, txt, "the writer's `sign` field was not located in the instrument record", f"{rel}:{st.lineno}")
+                elif same:
                     rep.ok(f"{P}.R2", rcon, txt, "the writer emits the same signature constant the reader compares with: own output is not legacy")
                 else:
                     rep.violation(f"{P}.R2", rcon, txt,
